@@ -3,6 +3,7 @@ publicsuffix.org algorithm (written from the algorithm text, set-based, no trie)
 import itertools
 import random
 
+from bcheck import history
 from bcheck.common import Collector, args, run_sharded, call
 
 import ural.tld as tld
@@ -189,7 +190,9 @@ def check_tld(col, rnd, tier):
             col.count("is_valid_tld")
             if r != ("ok", True):
                 col.violation("tld-case-punycode-insensitive", "ural.tld.is_valid_tld", v, list(r), True)
-            for host in ("example." + v.lstrip("."), "a.b." + v.lstrip("."), "http://x." + v.lstrip(".") + "/p.notatld"):
+            # the other labels are irrelevant, whatever they look like (raw non-ASCII, punycode that does not decode, IDNA-2008-only punycode)
+            for host in ("example." + v.lstrip("."), "a.b." + v.lstrip("."), "http://x." + v.lstrip(".") + "/p.notatld",
+                         "münchen." + v.lstrip("."), "xn--zz." + v.lstrip("."), "shop.xn--strae-oqa." + v.lstrip(".")):
                 r = call(tld.has_valid_tld, host)
                 col.count("has_valid_tld")
                 if r != ("ok", True):
@@ -206,6 +209,8 @@ def main():
     a = args("C08")
     col = Collector("C08", a.tier, a.seed)
     rnd = random.Random(a.seed)
+    if a.replay and history.replayed(a, col, "C08"):
+        return
     if a.replay:
         import json
         rp = json.load(open(a.replay))
@@ -244,6 +249,10 @@ def main():
     for i in range(3000 if a.tier == "quick" else 60000):
         host = ".".join(rnd.choice(pool) for _ in range(rnd.randint(1, 4)))
         check_host(col, ref, BUNDLED, host, "%s")
+    # hosts whose case-FOLDED form differs from their lower-cased form (sharp s, final sigma, ligature): "lower-cased hostname" means lower-cased
+    for host in ("straße.de", "www.Fußball.de", "ελληνικός.gr", "ﬁsh.co.uk", "STRAßE.co.uk"):
+        for form in ("%s", "http://%s/a"):
+            check_host(col, ref, BUNDLED, host, form)
     check_tld(col, rnd, a.tier)
     col.sample({"host": "svc.firenet.ch", "why": "explicit prefix of a longer rule and covered by a wildcard"})
     col.sample({"rules": ["*.a", "!b.a", "c.a.b"], "hosts": "all hostnames of depth <= 4 over {a,b,c}"})
@@ -257,6 +266,7 @@ def main():
                 "labels {a,b,c}) up to the stated size on fresh SuffixTrie objects x every hostname of depth <= 4; random label sequences; TLD "
                 "predicates on (a sample of) the bundled TLD set in lower / upper / punycode spelling. distinct_nontrivial = distinct rules / rule sets exercised"
                 % len(rules))
+    history.run(col, "C08", a.tier == "quick")
     col.dump(a.out)
 
 
